@@ -63,7 +63,8 @@ def run(model: Model, rep: Report, tier: str) -> None:
         "'not a transport node' (R6.3). For ID* the single leaf builder must apply one intervention set to all variables (R6.4)."
     )
     rep.trusted_base = ["Sum.safe / Product.safe / '/' / marginalize only wrap existing leaves (C13)", "districts and query sets contain no transport node (only orderings and node lists of a selection diagram do)"]
-    rep.floors = {"R6.1": 3, "R6.2": 5, "R6.3": 5, "R6.4": 2}
+    rep.floors = {"R6.1": 3, "R6.2": 5, "R6.3": 5, "R6.4": 2, "R6.5": 2}
+    r6_5(model, rep)
     r6_1(model, rep)
     r6_2(model, rep)
     r6_3(model, rep)
@@ -411,3 +412,28 @@ def r6_4(model: Model, rep: Report) -> None:
     ok = set(builders) == {"id_star_line_9"}
     f9 = model.func(f"{ID}.id_star.id_star_line_9")
     (rep.proven if ok else rep.refuted)("R6.4", construct(f9, "only-leaf-builder"), "" if ok else f"probability terms are built in {sorted(set(builders))}, not only in the base case", loc(f9))
+
+
+def r6_5(model: Model, rep: Report) -> None:
+    """The transport problem handed to TRSO: every source domain with ITS OWN experiments and its own transport diagram (reference comparison)."""
+    from .. import nxden
+    from ..refcmp import load_reference, run_table
+
+    load_reference(model, "yvref.c06", "c06_ref.py")
+    TR = "y0.algorithm.transport"
+    V = ("cls", VARIABLE)
+    G = ("cls", NXMG)
+    VS = ("set", V)
+    D = ("dict", None, VS)
+    H = {f"{TR}.create_transport_diagram", f"{TR}.get_nodes_to_transport", f"{TR}.transport_variable"}
+    table = [
+        ("R6.5", f"{TR}.surrogate_to_transport", "query_of",
+         {"graph": G, "target_outcomes": VS, "target_interventions": VS, "surrogate_outcomes": D, "surrogate_interventions": D}, H, "domains-keep-their-own-data",
+         "every source domain is paired with ITS OWN experiments and outcomes (looked up by the domain, never by position), its diagram carries the "
+         "transport nodes computed from exactly these, the target's diagram is the graph itself, and mismatching domain sets are refused"),
+        ("R6.5", f"{TR}.create_transport_diagram", "transport_diagram", {"graph": G, "nodes_to_transport": ("iter", V)}, H, "transport-diagram",
+         "the graph (all nodes, directed and bidirected edges) plus one transport node T_v -> v per variable to transport"),
+    ]
+    run_table(model, rep, table, "yvref.c06", lambda m_, prims: (lambda: Evaluator(m_, primitives=set(GRAPH_PRIMS) | set(prims),
+                                                                                     prim_methods={"add_node", "add_directed_edge", "add_undirected_edge"})),
+              SetAlg(rewriter(graph_rewrite)), construct=construct, loc=loc, post=nxden.post)
